@@ -18,6 +18,10 @@ Definition sb_cur_facts : sb_facts := Eval vm_compute in
      sbf_frame_inherit := f_sb_frame_inherit;
      sbf_userfunc_unsafe := f_sb_userfunc_unsafe && f_sb_function_default_unsafe |}.
 
+Definition sb_cur_body_scan : list (sb_name * (bool * bool)) := Eval vm_compute in
+  map (fun p => (sb_enc (fst p), snd p)) f_sb_body_scan.
+Definition sb_cur_console_returns_hidden : bool := Eval vm_compute in f_sb_console_returns_hidden.
+
 (* the libraries linked into the harness: what the live enumeration can see *)
 Definition sb_cur_func_libs : list (sb_name * sb_name) := Eval vm_compute in
   map (fun p => (sb_enc (fst p), sb_enc (fst (snd p)))) f_sb_funcs.
